@@ -11,6 +11,7 @@ import (
 	"encoding/pem"
 	"fmt"
 	"math/big"
+	"strings"
 	"sync"
 	"time"
 
@@ -130,6 +131,9 @@ func (k *key) reP8(got any) ([]byte, error) {
 
 func checkPlain(t *engine.T, k *key) {
 	r := rt{t, k}
+	if k.tag == "lead0" {
+		t.Sample(map[string]any{"kind": "unencrypted containers", "key": k.name, "pkcs8": engine.Hex(k.p8)})
+	}
 	r.priv("pkcs8", func() ([]byte, error) { return smx509.MarshalPKCS8PrivateKey(k.priv) }, parseP8, k.reP8)
 	r.priv("pkcs8/pkcs8-package", func() ([]byte, error) { return pkcs8.MarshalPrivateKey(k.priv, nil, nil) },
 		func(d []byte) (any, error) { g, _, err := pkcs8.ParsePrivateKey(d, nil); return g, err }, k.reP8)
@@ -376,7 +380,10 @@ func plainSM2(r rt) {
 	}, smx509.ParsePKIXPublicKey, eqPub, nil)
 	r.pub("raw/sm2.NewPublicKey", func() ([]byte, error) { return elliptic.Marshal(sm2.P256(), p.X, p.Y), nil },
 		func(d []byte) (any, error) { return sm2.NewPublicKey(d) }, eqPub,
-		func(g any) ([]byte, error) { e := g.(*ecdsa.PublicKey); return elliptic.Marshal(e.Curve, e.X, e.Y), nil })
+		func(g any) ([]byte, error) {
+			e := g.(*ecdsa.PublicKey)
+			return elliptic.Marshal(e.Curve, e.X, e.Y), nil
+		})
 }
 
 func plainECDH(r rt) {
@@ -563,7 +570,7 @@ func encCycle(t *engine.T, k *key, scheme, opt string, pws []pwSet, mk func(ln b
 		ln := lane(scheme + "/" + opt + "/" + pw.name)
 		container := "pkcs8-enc/" + scheme
 		t.Eval(1)
-		t.Nontrivial("enc/" + scheme + "/" + k.class())
+		t.Nontrivial("enc/" + scheme + "/" + opt + "/" + pw.name + "/" + k.class())
 		var der []byte
 		var err error
 		if t.Guard("roundtrip/"+container+"/encode", func() { der, err = mk(ln, pw.correct) }) {
@@ -592,6 +599,9 @@ func encCycle(t *engine.T, k *key, scheme, opt string, pws []pwSet, mk func(ln b
 			r.failShape(container, "reencode-differs", "%s %s: same stream, different container (%v)", opt, pw.name, err)
 		}
 		t.Outcome("enc-ok/" + scheme)
+		if k.tag == "lead0" && strings.HasPrefix(opt, "pbkdf2-sm3/salt=16") {
+			t.Sample(map[string]any{"kind": "pkcs8-enc round trip + 4 wrong passwords", "key": k.name, "scheme": scheme, "option": opt, "password": string(pw.correct), "container": engine.Hex(der)})
+		}
 		for _, w := range wrongPasswords(pw.correct) {
 			t.Eval(1)
 			var g any
